@@ -31,6 +31,13 @@ PROPS["C13"] = {
     "not_covered": ["write_solicited/write_unsolicited (async): IIN recomputed per transmitted fragment", "confirm-mandatory broadcast bit cleared on confirm (async)"],
 }
 
+PROPS["C18"] = {
+    "level_text": "Proof by contract of the outstation half of time synchronisation on a real session (written time = value + elapsed since RECORD_CURRENT_TIME; rejected on missing record, clock rollback, 48-bit overflow or wrong object count), of the 48-bit timestamp arithmetic, and of the master-side pure helpers that are synchronous.",
+    "level_note": "Master task steps (rtt/2 computation inside handle_delay_measure/handle_write_absolute_time on Association) are not reachable by CBMC and are not covered; mapping of 'now' to real transmission instants is an assumption; clock is a harness stub.",
+    "not_covered": ["master::tasks::time::TimeSyncTask::{handle_delay_measure,handle_write_absolute_time,handle_write_last_recorded_time} need &mut Association (CBMC does not finish)"],
+    "assumptions": ["tokio::time::Instant::now replaced by a harness clock returning arbitrary instants (layout self-checked each run)"],
+}
+
 NA = {
     "C02": "whole-system history over real TCP and three threads: no function contract within reach expresses it (Kani has no threads, tokio I/O crashes the Kani compiler); its ingredients are decided under C03/C06/C08/C09/C10/C13",
     "C14": "every rule is control flow inside async fns that hold the physical layer (check_unsolicited, perform_unsolicited_response_series, wait_for_unsolicited_confirm, handle_deferred_read): outside both verifiers",
